@@ -191,6 +191,90 @@ impl Drop for STry {
     }
 }
 
+/// Children without drop glue (`needs_drop` is false for them): the crate cannot be observed dropping them, so the
+/// harness accounts for them where the crate must have released them - at completion, and with the collection.
+#[derive(Clone, Copy)]
+pub struct PFut {
+    pub id: u32,
+}
+#[derive(Clone, Copy)]
+pub struct PTry {
+    pub id: u32,
+}
+fn plain_new(id: u32) {
+    let _s = Suspend::new();
+    with(|w| {
+        w.alive.insert(id);
+        w.plain.insert(id, 0);
+    });
+}
+impl PFut {
+    pub fn new(id: u32) -> Self {
+        plain_new(id);
+        PFut { id }
+    }
+}
+impl PTry {
+    pub fn new(id: u32) -> Self {
+        plain_new(id);
+        PTry { id }
+    }
+}
+fn plain_poll(id: u32, a: usize, cx: &mut Context<'_>) -> String {
+    {
+        let _s = Suspend::new();
+        with(|w| w.plain.insert(id, a));
+    }
+    child_poll(id, a, cx, false).0
+}
+/// the collection is gone: so are the plain children it still held
+pub fn plain_released_with_collection() {
+    let rest: Vec<(u32, usize)> = with(|w| w.plain.iter().filter(|(c, _)| w.alive.contains(c)).map(|(c, a)| (*c, *a)).collect());
+    for (c, a) in rest {
+        log_cdrop(c, a);
+    }
+}
+impl Future for PFut {
+    type Output = Token;
+    fn poll(self: Pin<&mut Self>, cx: &mut Context<'_>) -> Poll<Token> {
+        let a = addr_of_self!(self);
+        let resp = plain_poll(self.id, a, cx);
+        let _s = Suspend::new();
+        match resp.as_str() {
+            "R" | "X" => {
+                let t = Token::new(self.id as i64, 0);
+                log_cout(self.id, "R", 0);
+                log_cdrop(self.id, a);
+                Poll::Ready(t)
+            }
+            _ => {
+                log_cout(self.id, "P", 0);
+                Poll::Pending
+            }
+        }
+    }
+}
+impl Future for PTry {
+    type Output = Result<Token, Token>;
+    fn poll(self: Pin<&mut Self>, cx: &mut Context<'_>) -> Poll<Self::Output> {
+        let a = addr_of_self!(self);
+        let resp = plain_poll(self.id, a, cx);
+        let _s = Suspend::new();
+        match resp.as_str() {
+            "R" | "X" => {
+                let t = Token::new(self.id as i64, 0);
+                log_cout(self.id, &resp, 0);
+                log_cdrop(self.id, a);
+                Poll::Ready(if resp == "R" { Ok(t) } else { Err(t) })
+            }
+            _ => {
+                log_cout(self.id, "P", 0);
+                Poll::Pending
+            }
+        }
+    }
+}
+
 /// a future with output `()` (for_each_concurrent); completion is logged as "E" (no output value)
 pub struct SUnit {
     pub id: u32,
@@ -333,6 +417,17 @@ impl FromUp for u32 {
     }
 }
 
+/// hint "huge": the upstream holds `usize::MAX + HUGE_EXTRA` items in all (the scripted ones first; the rest is never ready)
+pub const HUGE_EXTRA: u128 = 2;
+pub fn up_is_huge() -> bool {
+    UP.lock().unwrap().as_ref().map(|u| u.hint == "huge").unwrap_or(false)
+}
+/// items the huge upstream still holds
+pub fn up_huge_remaining() -> u128 {
+    let g = UP.lock().unwrap();
+    let pulled = g.as_ref().map(|u| u.pulled).unwrap_or(0) as u128;
+    usize::MAX as u128 + HUGE_EXTRA - pulled
+}
 pub fn up_remaining() -> i64 {
     let g = UP.lock().unwrap();
     g.as_ref().map(|u| u.script.iter().filter(|s| s.resp == "I" || s.resp == "X").count() as i64).unwrap_or(0)
@@ -347,12 +442,23 @@ impl<T> SUp<T> {
         SUp { _t: std::marker::PhantomData, _pin: PhantomPinned }
     }
 }
+impl<T> Drop for SUp<T> {
+    fn drop(&mut self) {
+        // the upstream is a pinned stream too: its last observation is its drop
+        let _s = Suspend::new();
+        let addr = self as *const Self as usize;
+        let a = with(|w| w.addr_id(addr));
+        ev(format!(r#"{{"e":"updrop","addr":{}}}"#, a));
+    }
+}
 impl<T: FromUp> Stream for SUp<T> {
     type Item = T;
     fn poll_next(self: Pin<&mut Self>, cx: &mut Context<'_>) -> Poll<Option<T>> {
         let _s = Suspend::new();
         let _o = OutCrate::new();
         gate::sync_cb("up.enter");
+        let addr = self.as_ref().get_ref() as *const Self as usize;
+        let a = with(|w| w.addr_id(addr));
         let draining = with(|w| w.draining);
         let step = {
             let mut g = UP.lock().unwrap();
@@ -361,24 +467,25 @@ impl<T: FromUp> Stream for SUp<T> {
                 match u.script.pop_front() {
                     Some(s) if s.resp == "P" && draining => continue,
                     Some(s) => break s,
+                    None if u.hint == "huge" => break UpStep { resp: "P".into(), c: 0 },
                     None => break UpStep { resp: "E".into(), c: 0 },
                 }
             }
         };
         match step.resp.as_str() {
             "I" => {
-                ev(format!(r#"{{"e":"up","resp":"I","c":{}}}"#, step.c));
+                ev(format!(r#"{{"e":"up","resp":"I","c":{},"addr":{}}}"#, step.c, a));
                 UP.lock().unwrap().as_mut().unwrap().pulled += 1;
                 Poll::Ready(Some(T::make(step.c)))
             }
             "X" => match T::err(step.c) {
                 Some(e) => {
-                    ev(format!(r#"{{"e":"up","resp":"X","c":{}}}"#, step.c));
+                    ev(format!(r#"{{"e":"up","resp":"X","c":{},"addr":{}}}"#, step.c, a));
                     UP.lock().unwrap().as_mut().unwrap().pulled += 1;
                     Poll::Ready(Some(e))
                 }
                 None => {
-                    ev(r#"{"e":"up","resp":"P","c":0}"#.to_string());
+                    ev(format!(r#"{{"e":"up","resp":"P","c":0,"addr":{}}}"#, a));
                     let wk = cx.waker().clone();
                     let old = with(|w| w.up_waker.replace(wk));
                     drop(old);
@@ -386,20 +493,24 @@ impl<T: FromUp> Stream for SUp<T> {
                 }
             },
             "P" => {
-                ev(r#"{"e":"up","resp":"P","c":0}"#.to_string());
+                ev(format!(r#"{{"e":"up","resp":"P","c":0,"addr":{}}}"#, a));
                 let wk = cx.waker().clone();
                 let old = with(|w| w.up_waker.replace(wk));
                     drop(old);
                 Poll::Pending
             }
             _ => {
-                ev(r#"{"e":"up","resp":"E","c":0}"#.to_string());
+                ev(format!(r#"{{"e":"up","resp":"E","c":0,"addr":{}}}"#, a));
                 UP.lock().unwrap().as_mut().unwrap().ended = true;
                 Poll::Ready(None)
             }
         }
     }
     fn size_hint(&self) -> (usize, Option<usize>) {
+        if up_is_huge() {
+            let r = up_huge_remaining();
+            return if r > usize::MAX as u128 { (usize::MAX, None) } else { (r as usize, Some(r as usize)) };
+        }
         let r = up_remaining() as usize;
         let g = UP.lock().unwrap();
         match g.as_ref().map(|u| u.hint.as_str()).unwrap_or("exact") {
